@@ -21,7 +21,9 @@ Inductive rerr :=
 | RConnLocal (code : N)         (* ConnectionError(Local{Application{code}}): h3 raises a connection error *)
 | RStream (code : N)            (* StreamError{code}: only this stream is affected *)
 | RRemoteTerminate (code : N)   (* the peer reset the stream *)
-| RConnRemote (e : qerr).       (* the connection was closed / lost *)
+| RConnRemote (e : qerr).       (* what the transport reported, handed on as it is: the connection was closed / lost
+                                   (StreamError::ConnectionError(Remote / Timeout)), or - e = QStreamUnknown - a stream
+                                   failure of the transport's own kind (StreamError::Undefined, stream-scoped) *)
 
 (* handle_frame_stream_error_on_request_stream *)
 Definition err_of_fserr {A} (e : fserr) : res rerr A :=
